@@ -7,7 +7,9 @@ use lightning_signer::bitcoin::hashes::Hash;
 use lightning_signer::bitcoin::secp256k1::ecdsa::Signature;
 use lightning_signer::bitcoin::secp256k1::{All, PublicKey, Secp256k1, SecretKey};
 use lightning_signer::bitcoin::sighash::EcdsaSighashType;
-use lightning_signer::bitcoin::{BlockHash, ScriptBuf};
+use lightning_signer::bitcoin::{BlockHash, ScriptBuf, Transaction, TxOut};
+use lightning_signer::util::test_utils::{make_test_funding_channel_outpoint, make_test_funding_tx_with_ins_outs, make_test_funding_wallet_input, make_test_funding_wallet_output};
+use lightning_signer::node::SpendType;
 use lightning_signer::channel::{ChannelBase, ChannelId};
 use lightning_signer::node::NodeMonitor;
 use lightning_signer::lightning::types::payment::PaymentHash;
@@ -98,6 +100,10 @@ enum Op {
     ForgetChannel { c: usize },
     NewChannelReused,
     SetupAgainDifferent { c: usize },
+    /// node-level histories: ask for the wallet signatures on the channel's funding transaction
+    /// (bad 0: right arguments; 1: a wallet path of the wrong length; 2: a taproot previous output that is not the
+    /// one at the supplied wallet index)
+    SignOnchain { c: usize, bad: u8 },
 }
 
 #[derive(Clone, Debug)]
@@ -180,6 +186,9 @@ struct Chan {
     /// a second commitment seed, for "other seed" points/secrets
     other_seed: [u8; 32],
     forgotten: bool,
+    /// node-level histories: the transaction that funds this channel (its txid is the setup's funding txid), the
+    /// wallet output it spends and that output's wallet index
+    funding: Option<(Transaction, TxOut, u32)>,
 }
 
 struct Hist {
@@ -201,6 +210,8 @@ struct Hist {
     /// node-level histories (C10, C11): one payment hash used by every channel, approved once for one part
     shared_hash_enabled: bool,
     shared_registered: bool,
+    /// channels are funded by a real transaction built here (node-level histories)
+    funding_txs: bool,
 }
 
 #[derive(Clone, Copy, PartialEq, Eq, Debug)]
@@ -292,7 +303,7 @@ impl Hist {
         cfg.backup = backup;
         cfg.policy.max_invoices = 100_000;
         let world = World::new(cfg);
-        Hist { world, chans: vec![], log: vec![], next_dbid: 1, fresh_tag: (shard as u64) << 40 | index << 20, keysend_tag: 0, secp: Secp256k1::new(), shard, index, c11_known: BTreeSet::new(), c11_ext_known: BTreeSet::new(), c11_bk_known: BTreeSet::new(), c11_probe_known: 0, c11_ext_conflicts: 0, shared_hash_enabled: false, shared_registered: false }
+        Hist { world, chans: vec![], log: vec![], next_dbid: 1, fresh_tag: (shard as u64) << 40 | index << 20, keysend_tag: 0, secp: Secp256k1::new(), shard, index, c11_known: BTreeSet::new(), c11_ext_known: BTreeSet::new(), c11_bk_known: BTreeSet::new(), c11_probe_known: 0, c11_ext_conflicts: 0, shared_hash_enabled: false, shared_registered: false, funding_txs: false }
     }
 
     fn height(&self) -> u32 {
@@ -322,7 +333,27 @@ impl Hist {
         if let Some((id, _)) = val {
             let cp = CpKeys::generate(rng);
             let cp_points = cp.points(&self.secp);
-            let setup = random_setup(rng, &self.secp, &cp, (self.shard as u64) << 32 | self.index << 8 | self.chans.len() as u64);
+            let mut setup = random_setup(rng, &self.secp, &cp, (self.shard as u64) << 32 | self.index << 8 | self.chans.len() as u64);
+            let mut funding = None;
+            if self.funding_txs {
+                // a wallet input, the 2-of-2 funding output at the setup's output index, change before it
+                let widx = (dbid % 900) as u32;
+                let fee = 20_000u64;
+                let vout = setup.funding_outpoint.vout as u64;
+                let built = report::catch(|| {
+                    let (prev, txin) = make_test_funding_wallet_input(&node, SpendType::P2wpkh, widx, setup.channel_value_sat + fee + 10_000 * vout);
+                    let mut outs = vec![];
+                    for i in 0..vout {
+                        outs.push(make_test_funding_wallet_output(&node, widx + 1 + i as u32, 10_000, SpendType::P2wpkh));
+                    }
+                    outs.push(make_test_funding_channel_outpoint(&node, &setup, &id, setup.channel_value_sat));
+                    (make_test_funding_tx_with_ins_outs(vec![txin], outs), prev.output[0].clone())
+                });
+                if let Ok((tx, prev_out)) = built {
+                    setup.funding_outpoint.txid = tx.compute_txid();
+                    funding = Some((tx, prev_out, widx));
+                }
+            }
             let seed = self.world.cfg.seed;
             let m = ChanModel {
                 id0: id.clone(),
@@ -335,7 +366,7 @@ impl Hist {
                 holder_commitment_seed: Some(oracle::native_commitment_seed(&seed, id.as_slice())),
             };
             let bal = Balance::initial(&setup);
-            self.chans.push(Chan { m, ready: false, bal, next_content: None, cp_contents: BTreeMap::new(), g: Ghost::default(), other_seed: rng.bytes::<32>(), forgotten: false });
+            self.chans.push(Chan { m, ready: false, bal, next_content: None, cp_contents: BTreeMap::new(), g: Ghost::default(), other_seed: rng.bytes::<32>(), forgotten: false, funding });
         }
         res
     }
@@ -607,6 +638,28 @@ impl Hist {
                     return Outcome::new(Res::Ok);
                 }
                 let (r, _) = self.world.request(|n| report::catch(|| n.new_channel(dbid, &peer_id, &node)));
+                Outcome::new(status_res(r).0)
+            }
+            Op::SignOnchain { c, bad } => {
+                let (tx, mut prev_out, widx) = match self.chans[c].funding.clone() {
+                    Some(f) => f,
+                    None => return Outcome::new(Res::Err("harness: channel without funding transaction".into())),
+                };
+                let path = |v: Vec<u32>| -> DerivationPath { v.into_iter().map(|i| ChildNumber::from_normal_idx(i).unwrap()).collect::<Vec<_>>().into() };
+                let mut ipath = path(vec![widx]);
+                match bad {
+                    1 => ipath = path(vec![widx, 0]),
+                    2 => {
+                        // a taproot output of the wallet, at another index than the one supplied
+                        let node = self.world.node.clone();
+                        let other = path(vec![widx + 7]);
+                        if let Ok(Ok(a)) = report::catch(move || node.get_taproot_address(&other)) {
+                            prev_out = TxOut { value: prev_out.value, script_pubkey: a.script_pubkey() };
+                        }
+                    }
+                    _ => {}
+                }
+                let (r, _) = self.world.request(|n| report::catch(|| n.unchecked_sign_onchain_tx(&tx, &[ipath.clone()], &[prev_out.clone()], vec![None])));
                 Outcome::new(status_res(r).0)
             }
             Op::SetupAgainDifferent { c } => {
@@ -1195,7 +1248,8 @@ fn gen_op(rng: &mut Rng, h: &Hist, prop: Prop) -> Op {
             _ => Op::RemoveBlock { bad: rng.below(3) as u8 },
         },
         13 => Op::Allowlist { kind: rng.below(3) as u8, sel: rng.below(32) as u8, bad_pos: if rng.chance(1, 3) { 1 + rng.below(4) as u8 } else { 0 }, rot: rng.below(5) as u8 },
-        14 => match rng.below(4) {
+        14 => match rng.below(5) {
+            4 => Op::SignOnchain { c, bad: rng.below(3) as u8 },
             0 => Op::Keysend { conflict: false },
             1 => Op::NewChannelReused,
             2 => Op::SetupAgainDifferent { c },
@@ -1210,7 +1264,7 @@ fn gen_op(rng: &mut Rng, h: &Hist, prop: Prop) -> Op {
 
 fn op_channel(op: &Op) -> Option<usize> {
     match op {
-        Op::Setup { c } | Op::ValidateHolder { c, .. } | Op::Revoke { c, .. } | Op::Activate { c } | Op::GetPoint { c, .. } | Op::GetSecret { c, .. } | Op::CheckFutureSecret { c, .. } | Op::SignHolder { c, .. } | Op::SignHolderRecovery { c } | Op::SignHolderRedundant { c, .. } | Op::SignCounterparty { c, .. } | Op::ValidateRevocation { c, .. } | Op::MutualClose { c, .. } | Op::ForgetChannel { c } | Op::SetupAgainDifferent { c } => Some(*c),
+        Op::Setup { c } | Op::ValidateHolder { c, .. } | Op::Revoke { c, .. } | Op::Activate { c } | Op::GetPoint { c, .. } | Op::GetSecret { c, .. } | Op::CheckFutureSecret { c, .. } | Op::SignHolder { c, .. } | Op::SignHolderRecovery { c } | Op::SignHolderRedundant { c, .. } | Op::SignCounterparty { c, .. } | Op::ValidateRevocation { c, .. } | Op::MutualClose { c, .. } | Op::ForgetChannel { c } | Op::SetupAgainDifferent { c } | Op::SignOnchain { c, .. } => Some(*c),
         _ => None,
     }
 }
@@ -1702,6 +1756,7 @@ fn run_history(rng: &mut Rng, r: &mut Report, cli: &Cli, prop: Prop, shard: usiz
     }
     let mut h = Hist::new(rng, shard, index, cloud, backup);
     h.shared_hash_enabled = matches!(prop, Prop::C10 | Prop::C11) && index % 2 == 0;
+    h.funding_txs = matches!(prop, Prop::C10 | Prop::C11);
     if matches!(prop, Prop::C10 | Prop::C11) && index % 3 == 1 {
         // fill the tracker's header window (MAX_REORG_SIZE = 100) so that requests act on a full window
         let n = 98 + rng.below(8);
